@@ -264,6 +264,8 @@ class Credits(Mode):
 
         self._update_credit_strings()
 
+        # prevent duplicate switch and credit event handlers
+        self._disable_credit_handlers()
         self._enable_credit_handlers()
 
         # prevent duplicate handlers
